@@ -21,7 +21,8 @@
    recursive call is on a strictly shorter octet string - UeShorter asserts the measure), the
    positions of all length fields (the generator's mutation points), the projection of a
    structure (lengths, PLMN octets, UPSC, part types and contents) that a decoder must deliver.
-   The parser as a small-step machine with an explicit termination measure is UePolicyParser.
+   The parser as a small-step machine with an explicit termination measure is UePolicyParser;
+   histories on one live structure (encode, append a fresh item, encode again) are UePolicyHistory.
 
    Note (information, not part of C18): in the messages of D.5 the two mandatory IEs have format
    LV-E; the library always carries an IEI octet in front.  The specification follows the IE
@@ -223,4 +224,42 @@ UeProjMsg(m) ==
    subs |-> IF m.type = 1 THEN UeProjSubs(m.subs) ELSE << >>,
    srs |-> IF m.type = 3 THEN UeProjSubRess(m.srs) ELSE << >>,
    cm |-> IF m.type = 1 THEN UeProjCm(m.cm) ELSE << >>]
+
+\* ------------------------------------------------------------------ API-level values and growth
+\* The API is given a PLMN as integers: sublist = [mcc, mnc, ins], subresult = [mcc, mnc, rs].
+RECURSIVE UeSubsOfApi(_)
+UeSubsOfApi(ss) == IF ss = << >> THEN << >>
+                   ELSE << [plmn |-> UePlmnToOctets(Head(ss).mcc, Head(ss).mnc), ins |-> Head(ss).ins] >> \o UeSubsOfApi(Tail(ss))
+RECURSIVE UeSrsOfApi(_)
+UeSrsOfApi(ss) == IF ss = << >> THEN << >>
+                  ELSE << [plmn |-> UePlmnToOctets(Head(ss).mcc, Head(ss).mnc), rs |-> Head(ss).rs] >> \o UeSrsOfApi(Tail(ss))
+RECURSIVE UeApiOfSubs(_)
+UeApiOfSubs(ss) == IF ss = << >> THEN << >>
+                   ELSE LET mm == UeOctetsToPlmn(Head(ss).plmn) IN
+                        << [mcc |-> mm[1], mnc |-> mm[2], ins |-> Head(ss).ins] >> \o UeApiOfSubs(Tail(ss))
+RECURSIVE UeApiOfSrs(_)
+UeApiOfSrs(ss) == IF ss = << >> THEN << >>
+                  ELSE LET mm == UeOctetsToPlmn(Head(ss).plmn) IN
+                       << [mcc |-> mm[1], mnc |-> mm[2], rs |-> Head(ss).rs] >> \o UeApiOfSrs(Tail(ss))
+\* kind = "list" (sublists) or "result" (subresults)
+UeMarshalApi(kind, val) == IF kind = "list" THEN UeMarshalSubs(UeSubsOfApi(val)) ELSE UeMarshalSubRess(UeSrsOfApi(val))
+\* A structure grows by appending a FRESH item: a part to instruction i of sublist s, an instruction to
+\* sublist s, a sublist to the list; a result to subresult s, a subresult to the result list.
+UeGrowLevels(kind) == IF kind = "list" THEN {"part", "ins", "sub"} ELSE {"res", "sres"}
+UeGrowOK(val, level, s, i) ==
+  CASE level \in {"sub", "sres"} -> TRUE
+    [] level \in {"ins", "res"} -> s \in 1..Len(val)
+    [] level = "part" -> s \in 1..Len(val) /\ i \in 1..Len(val[s].ins)
+UeGrow(val, level, s, i, item) ==
+  CASE level \in {"sub", "sres"} -> Append(val, item)
+    [] level = "ins" -> [val EXCEPT ![s] = [@ EXCEPT !.ins = Append(@, item)]]
+    [] level = "res" -> [val EXCEPT ![s] = [@ EXCEPT !.rs = Append(@, item)]]
+    [] level = "part" -> [val EXCEPT ![s] = [@ EXCEPT !.ins = [@ EXCEPT ![i] = [@ EXCEPT !.parts = Append(@, item)]]]]
+\* octets the fresh item adds to the encoding (and to every length that encloses it)
+UeItemSize(level, item) ==
+  CASE level = "part" -> Len(UeMarshalPart(item))
+    [] level = "ins" -> Len(UeMarshalInstr(item))
+    [] level = "sub" -> Len(UeMarshalSubs(UeSubsOfApi(<< item >>)))
+    [] level = "res" -> 5
+    [] level = "sres" -> Len(UeMarshalSubRess(UeSrsOfApi(<< item >>)))
 =============================================================================
